@@ -1,4 +1,5 @@
 import LinfaSpec.Proofs.Scaling
+import Mathlib.Analysis.Real.Sqrt
 
 /-!
 # C16 — scalers and whiteners achieve their normalisation and act as fixed row-wise maps
@@ -333,5 +334,213 @@ theorem norm_divisor_positive (nrm : α) (r : List α) (h : scaleRowBy nrm r ≠
   exact h rfl
 
 end norm
+
+
+/-! ### fixed affine map, row by row -/
+section rowwise
+variable {α : Type} [Field α] [LinearOrder α] [IsStrictOrderedRing α]
+
+/-- **the fitted transform is one fixed map applied to each row**: on any matrix of the
+fitted width (training data or unseen data) the result is `rows.map (transformRow sc)`;
+`transformRow sc` depends on the fitted parameters only. -/
+theorem transform_is_rowwise (sc : Scaler α) (p : Nat) (rows : List (List α))
+    (ho : sc.offsets.length = p) (hrows : ∀ r ∈ rows, r.length = p) :
+    transform sc p rows = some (rows.map (transformRow sc)) :=
+  transform_some sc p rows ho hrows
+
+/-- **each cell goes through an affine map fixed by the fitted parameters** -/
+theorem transformCell_affine (m : Method α) (o s : α) :
+    ∃ a b : α, ∀ x, transformCell m x o s = a * x + b := by
+  cases m with
+  | standard wm ws =>
+    cases wm
+    · exact ⟨s, o - o * s, fun x => by simp only [transformCell]; ring⟩
+    · exact ⟨s, -(o * s), fun x => by simp only [transformCell]; ring⟩
+  | minMax lo hi => exact ⟨s * (hi - lo), lo - o * s * (hi - lo), fun x => by simp only [transformCell]; ring⟩
+  | maxAbs => exact ⟨s, -(o * s), fun x => by simp only [transformCell]; ring⟩
+
+/-- **commutes with row selection** (any index list, repetitions allowed) -/
+theorem transform_commutes_with_selection (sc : Scaler α) (p : Nat) (rows : List (List α))
+    (ho : sc.offsets.length = p) (hrows : ∀ r ∈ rows, r.length = p) (sel : List Nat) :
+    ∃ y, transform sc p rows = some y ∧
+      transform sc p (sel.filterMap (rows[·]?)) = some (sel.filterMap (y[·]?)) := by
+  refine ⟨_, transform_some sc p rows ho hrows, ?_⟩
+  have hsel : ∀ r ∈ sel.filterMap (rows[·]?), r.length = p := by
+    intro r hr
+    obtain ⟨i, _, hi⟩ := List.mem_filterMap.mp hr
+    exact hrows r (List.mem_of_getElem? hi)
+  rw [transform_some sc p _ ho hsel, List.map_filterMap]
+  congr 1
+  apply List.filterMap_congr
+  intro i _
+  simp [List.getElem?_map]
+
+/-- **commutes with reordering** -/
+theorem transform_commutes_with_perm (sc : Scaler α) (p : Nat) (rows rows' : List (List α))
+    (ho : sc.offsets.length = p) (hrows : ∀ r ∈ rows, r.length = p) (hp : rows.Perm rows') :
+    ∃ y y', transform sc p rows = some y ∧ transform sc p rows' = some y' ∧ y.Perm y' := by
+  have hrows' : ∀ r ∈ rows', r.length = p := fun r hr => hrows r (hp.symm.subset hr)
+  exact ⟨_, _, transform_some sc p rows ho hrows, transform_some sc p rows' ho hrows', hp.map _⟩
+
+/-- **identical on unseen data**: transforming a batch that extends another one gives the same
+rows for the common part (a row's image never depends on the other rows) -/
+theorem transform_append (sc : Scaler α) (p : Nat) (a b : List (List α))
+    (ho : sc.offsets.length = p) (ha : ∀ r ∈ a, r.length = p) (hb : ∀ r ∈ b, r.length = p) :
+    ∃ ya yb, transform sc p a = some ya ∧ transform sc p b = some yb ∧
+      transform sc p (a ++ b) = some (ya ++ yb) := by
+  have hab : ∀ r ∈ a ++ b, r.length = p := by
+    intro r hr; rcases List.mem_append.mp hr with h | h
+    · exact ha r h
+    · exact hb r h
+  exact ⟨_, _, transform_some sc p a ho ha, transform_some sc p b ho hb, by
+    rw [transform_some sc p _ ho hab, List.map_append]⟩
+
+/-- norm scaling and whitening are row maps by construction -/
+theorem norm_whiten_rowwise [Transc α] (k : NormKind) (mean : List α) (W a b : List (List α)) :
+    normTransform k (a ++ b) = normTransform k a ++ normTransform k b ∧
+    whitenTransform mean W (a ++ b) = whitenTransform mean W a ++ whitenTransform mean W b := by
+  simp [normTransform, whitenTransform]
+
+end rowwise
+
+/-! ### metadata, errors -/
+
+/-- **targets, weights, feature and target names pass through unchanged**, and the records are
+the array transform of the records -/
+theorem metadata_passthrough {R R' T W : Type} (f : R → Option R') (nfeat : R' → Nat) (ntgt : T → Nat)
+    (ds : DS R T W) (out : DS R' T W) (h : transformDataset f nfeat ntgt ds = some out) :
+    out.targets = ds.targets ∧ out.weights = ds.weights ∧ out.featureNames = ds.featureNames ∧
+      out.targetNames = ds.targetNames ∧ f ds.records = some out.records := by
+  unfold transformDataset at h
+  split at h
+  · exact absurd h (by simp)
+  · rename_i recs hrec
+    split at h
+    · exact absurd h (by simp)
+    · split at h
+      · exact absurd h (by simp)
+      · cases h; exact ⟨rfl, rfl, rfl, rfl, hrec⟩
+
+/-- the dataset form succeeds whenever the array form does and the width is unchanged -/
+theorem metadata_no_panic {R R' T W : Type} (f : R → Option R') (nfeat : R' → Nat) (ntgt : T → Nat)
+    (ds : DS R T W) (recs : R') (hf : f ds.records = some recs)
+    (h1 : ds.featureNames = [] ∨ ds.featureNames.length = nfeat recs)
+    (h2 : ds.targetNames = [] ∨ ds.targetNames.length = ntgt ds.targets) :
+    (transformDataset f nfeat ntgt ds).isSome := by
+  unfold transformDataset
+  rw [hf]
+  rcases h1 with h | h <;> rcases h2 with h' | h' <;> simp [h, h']
+
+section errors
+variable {α : Type} [Field α] [LinearOrder α] [IsStrictOrderedRing α] [Transc α]
+
+/-- **empty training data is rejected with an error** by every fit -/
+theorem empty_rejected {ε : Type} (eps : α) (p : Nat) (wm ws : Bool) (lo hi : α)
+    (decomp : List (List α) → Except ε (List (List α))) :
+    fitStandard eps p [] wm ws = .error .notEnoughSamples ∧
+    fitMinMax eps p [] lo hi = .error .notEnoughSamples ∧
+    fitMaxAbs eps p [] = .error .notEnoughSamples ∧
+    whitenFit decomp p ([] : List (List α)) = .error (.inl .notEnoughSamples) := by
+  simp [fitStandard, fitMinMax, fitMaxAbs, whitenFit]
+
+/-- a flipped range is rejected -/
+theorem flipped_range_rejected (eps : α) (p : Nat) (rows : List (List α)) (lo hi : α)
+    (hn : rows ≠ []) (h : hi < lo) : fitMinMax eps p rows lo hi = .error .flippedMinMaxRange := by
+  have hlen : ¬ rows.length = 0 := by
+    intro h; exact hn (List.length_eq_zero_iff.mp h)
+  unfold fitMinMax; rw [if_neg hlen, if_pos h]
+
+/-
+Full whitening statement (kept visible, NOT proved here):
+  for `n × p` data `X` with mean `m`, sample covariance `S = (X-m)ᵀ(X-m)/(n-1)` and any `W` with
+  `W S Wᵀ = I` (the contract of the SVD / Cholesky step, checked numerically on every full-rank
+  case by the harness), `cov (whitenTransform m W X) = I`.
+Missing: the `p × p` matrix algebra over list-of-lists (`cov(Y) = W S Wᵀ`, a double-sum exchange).
+Proved: the one-column case below, where the contract reads `w·w·var₁(x) = 1`.
+-/
+/-- whitening certificate, one feature: if the factor `w` meets its contract `w² · var = 1`
+(variance with divisor `n - 1`), the whitened training column has sample variance one -/
+theorem whiten_identity_cov_partial (c : List α) (w : α)
+    (hcert : w * w * varCol 1 c = 1) :
+    varCol 1 (col (whitenTransform [meanCol c] [[w]] (c.map fun x => [x])) 0) = 1 := by
+  have : col (whitenTransform [meanCol c] [[w]] (c.map fun x => [x])) 0 =
+      c.map fun x => w * x + -(meanCol c * w) := by
+    unfold col whitenTransform
+    rw [List.map_map, List.map_map]
+    apply List.map_congr_left
+    intro x _
+    simp [whitenRow, dotS, sumS]
+    ring
+  rw [this, varCol_affine_ddof, hcert]
+
+end errors
+
+/-! ### the guards are not vacuous, and what happens below them -/
+
+/-- **counter-example to the unguarded statement** (open finding `C16-sub-eps-minmax`): with the
+machine epsilon `2^-52`, the non-constant column `[0, 2^-60]` is *not* mapped onto `[0,1]` —
+the guard treats it as constant and the upper end stays `2^-60`. -/
+theorem minmax_sub_eps_not_scaled :
+    let eps : Rat := 1 / 2 ^ 52
+    ∃ sc y, fitMinMax eps 1 [[0], [1 / 2 ^ 60]] 0 1 = .ok sc ∧
+      transform sc 1 [[0], [1 / 2 ^ 60]] = some y ∧ (1 : Rat) ∉ col y 0 := by
+  refine ⟨_, _, rfl, rfl, ?_⟩
+  simp [col, cols, transformRow, transformCell, minCol, maxCol, invOrOne, absDiffEq, absS,
+    List.range, List.range.loop]
+  norm_num
+
+
+/-! ### non-vacuity: the hypotheses are satisfiable on concrete, non-trivial values -/
+section nonvacuity
+
+/-- shape hypotheses (`standard_zero_mean`, `no_mean_keeps_mean`, `no_std_keeps_spread`,
+`transform_*`): a 2 × 2 matrix -/
+example : ([[1, 2], [3, 5]] : List (List ℚ)) ≠ [] ∧
+    ∀ r ∈ ([[1, 2], [3, 5]] : List (List ℚ)), r.length = 2 := by simp
+
+/-- guard of `minmax_range_attained` with the machine epsilon -/
+example : (1 / 2 ^ 52 : ℚ) < maxCol (col [[1, 2], [3, 5]] 1) - minCol (col [[1, 2], [3, 5]] 1) := by
+  simp [col, maxCol, minCol]; norm_num
+
+/-- guard of `maxabs_one` -/
+example : (1 / 2 ^ 52 : ℚ) < normMax (col [[1, -2], [3, 5]] 1) := by
+  simp [col, normMax, maxS, absS]; norm_num
+
+/-- `constant_only_centred`: a constant column next to a varying one -/
+example : ∀ x ∈ col ([[7, 2], [7, 5]] : List (List ℚ)) 0, x = 7 := by simp [col]
+
+/-- `norm_unit` / `norm_zero_row_unchanged`: a non-zero row and a zero row -/
+example : (∃ x ∈ ([3, -4] : List ℚ), x ≠ 0) ∧ (∀ x ∈ ([0, 0] : List ℚ), x = 0) :=
+  ⟨⟨3, by simp, by norm_num⟩, by simp⟩
+
+/-- `metadata_passthrough`: a dataset form that succeeds -/
+example : transformDataset (R := Nat) (R' := Nat) (T := List Nat) (W := List Nat)
+    (fun r => some r) id List.length ⟨2, [10, 11], [1, 1], ["a", "b"], []⟩ =
+    some ⟨2, [10, 11], [1, 1], ["a", "b"], []⟩ := by simp [transformDataset]
+
+/-- `whiten_identity_cov_partial`: the column `[0, 2]` has sample variance 2, `w = 1/√2` … here
+over ℚ with the column `[0, 2, 4]`·(1/2): variance 1, certificate met by `w = 1` -/
+example : (1 : ℚ) * 1 * varCol 1 [0, 1, 2] = 1 := by
+  rw [varCol, welford_state]; norm_num
+
+noncomputable local instance : Transc ℝ := ⟨Real.sqrt, id, id⟩
+
+/-- the square-root contract holds for the real square root -/
+example : SqrtContract ℝ := fun x hx => ⟨Real.mul_self_sqrt hx, Real.sqrt_nonneg x⟩
+
+/-- guard of `standard_unit_var` on real data: the column `[0, 2]` has standard deviation 1 -/
+example : (1 / 2 : ℝ) < stdCol (col [[0], [2]] 0) := by
+  unfold stdCol
+  rw [varCol_eq]
+  have : (((List.map (fun x => x * x) (col ([[0], [2]] : List (List ℝ)) 0)).sum -
+      (col ([[0], [2]] : List (List ℝ)) 0).sum * (col ([[0], [2]] : List (List ℝ)) 0).sum /
+        ((col ([[0], [2]] : List (List ℝ)) 0).length : ℝ)) /
+      ((col ([[0], [2]] : List (List ℝ)) 0).length : ℝ)) = 1 := by
+    simp [col]; norm_num
+  rw [this]
+  show (1 / 2 : ℝ) < Real.sqrt 1
+  rw [Real.sqrt_one]; norm_num
+
+end nonvacuity
 
 end LinfaSpec.Props.C16
